@@ -186,7 +186,7 @@ static void gen_run_current(void) {
         n_exec++; n_calls += O.ncalls;
         static hx_buf d2; hx_digest(&O, &d2, 0); cx_set_add(&outcomes, hx_fnv(d2.p, d2.n, 0));
         hx_report_verdicts(&S, &O, PROPS);
-        if (p != 0 || !gen_cuts) continue;
+        if (!gen_cuts || (p != 0 && gen_cuts < 2)) continue;          /* --cuts 1: IDS personality only, --cuts 2: every personality */
         /* the ground truth does not depend on how the streams arrive: every single cut and 1-byte delivery, same comparison */
         static int pos[1 << 15]; int np = cx_all_positions(pos, GE.q.n, GE.r.n);
         for (int a = 0; a <= np; a++) {
